@@ -328,7 +328,6 @@ namespace bluetoe {
                     if ( procedure_in_progress_ )
                         return std::make_pair( error_codes::procedure_already_in_progress, false );
 
-                    procedure_in_progress_  = true;
                     current_opcode_         = *value;
                     ++value;
 
@@ -339,6 +338,7 @@ namespace bluetoe {
                             if ( write_size != 1 + 4 )
                                 return std::make_pair( error_codes::invalid_pdu, false );
 
+                            procedure_in_progress_ = true;
                             handler.set_cumulative_wheel_revolutions( bluetoe::details::read_32bit( value ) );
                             return std::make_pair( error_codes::success, false );
                         }
@@ -347,6 +347,7 @@ namespace bluetoe {
                             if ( write_size != 1 )
                                 return std::make_pair( error_codes::invalid_pdu, false );
 
+                            procedure_in_progress_ = true;
                             return std::make_pair( error_codes::success, true );
                         }
                     case update_sensor_location_opcode:
@@ -354,12 +355,14 @@ namespace bluetoe {
                             if ( write_size != 1 + 1 )
                                 return std::make_pair( error_codes::invalid_pdu, false );
 
+                            procedure_in_progress_ = true;
                             this->set_sensor_position( *value);
 
                             return std::make_pair( error_codes::success, true );
                         }
                     default:
                         // according to the spec with have to response with success and then indicate an error
+                        procedure_in_progress_ = true;
                         return std::make_pair( error_codes::success, true );
                     }
 
